@@ -116,7 +116,9 @@ class TableMachine:
         for e in (extra[3], extra[4], extra[5]):
             self.preread.append({**e, "preread": True})
         self.file_seeds = []
-        for fn, idx in (("simple_table.ods", 0), ("styled_table.ods", 0), ("test_col_cell.ods", 0)):
+        # sheets of bounded size only (styled_table.ods is 65536 rows high, test_col_cell.ods 16384 x 1048576
+        # once expanded: no list-of-lists model of those)
+        for fn, idx in (("simple_table.ods", 0), ("minimal_hidden.ods", 0), ("table.odt", 0)):
             self.seed_list.append({"kind": "file", "file": fn, "table": idx})
         self.n_files = 3
         self.seed_list.extend(self.preread)
@@ -187,8 +189,8 @@ class TableMachine:
         full = alphabet in ("full",)
         mini = alphabet == "mini"
         if full:
-            xs = sorted({0, 1, max(W - 1, 0), W, W + 1}) + [-1]
-            ys = sorted({0, 1, max(H - 1, 0), H, H + 1}) + [-1]
+            xs = sorted({0, 1, max(W - 1, 0), W, W + 1}) + [-1, -2]
+            ys = sorted({0, 1, max(H - 1, 0), H, H + 1}) + [-1, -2]
             ks = (1, 2, 3)
         elif mini:
             xs = sorted({0, max(W - 1, 0), W})
@@ -785,7 +787,7 @@ class TableMachine:
         return (st.model.canon(), st.exc)
 
     def expandable(self, st):
-        return not st.diverged and st.model.width <= 6 and st.model.height <= 6
+        return not st.diverged and st.model.width <= 12 and st.model.height <= 8
 
     def describe(self, st):
         return {"xml": st.table.serialize(), "model": st.model.rows, "ncols": st.model.ncols,
